@@ -33,6 +33,8 @@ def configs(tier):
     # site 0 is the leftmost factor of every tensor product: the C04 contracts of _kron_mult / rotate_* on
     # non-palindromic basis strings, stated against the same big-endian index function
     out += [{"part": "tensor-order", "basis": b} for b in (["XZ", "ZY"] if tier == "quick" else ["XZ", "ZY", "XYZ", "ZZX", "YZ", "XZZY"])]
+    # the same with the library's own X, Y, Z matrices (code that looks at the entries of a unitary is decidable there)
+    out += [{"part": "tensor-order", "basis": b, "mode": "default-dict"} for b in (["XZ", "ZY", "ZXZ"] if tier == "quick" else ["XZ", "ZY", "ZXZ", "XZZY", "YZX"])]
     return out
 
 
@@ -43,7 +45,7 @@ def canaries(tier):
 def run_config(ctx, cfg):
     if cfg["part"] == "tensor-order":
         from lemmas import C04
-        return C04._rotations(ctx, {"mode": "symbolic", "basis": cfg["basis"]})
+        return C04._rotations(ctx, {"mode": cfg.get("mode", "symbolic"), "basis": cfg["basis"]})
     return {"indexing": _indexing, "oversize": _oversize, "loaders": _loaders, "refbasis": _refbasis}[cfg["part"]](ctx, cfg)
 
 
@@ -219,5 +221,9 @@ def _refbasis(ctx, cfg):
 
 
 def replay(o):
+    if o["cfg"].get("part") == "tensor-order":
+        from drivers import C04 as D4
+        env = (o.get("witness") or {}).get("env") or {}
+        return D4.replay({"mode": o["cfg"].get("mode", "symbolic"), "basis": o["cfg"]["basis"]}, env)
     from drivers import C19 as D
     return D.replay(o["cfg"])
